@@ -164,6 +164,8 @@ func (p *parser) handler() *handler {
 		return &handler{kind: 'f', id: p.nat(), arg: p.nat()}
 	case "i":
 		return &handler{kind: 'i', arg: p.nat()}
+	case "z":
+		return &handler{kind: 'z'}
 	case "x":
 		return &handler{kind: 'x', arg: p.nat()}
 	case "y":
@@ -401,6 +403,7 @@ func (e *enc) routes(rs []*route) {
 				e.n(h.arg)
 			case 'x', 'y', 'i':
 				e.n(h.arg)
+			case 'z':
 			case 's':
 				e.routes(h.routes)
 				e.bool01(h.hasErrs)
